@@ -48,6 +48,7 @@ pub async fn worker(
 		let action = Handler::new(events.clone(), jobs.clone());
 
 		debug!("running action handler");
+		#[cfg_attr(watchexec_verif, allow(unused_mut))]
 		let action = match config.action_handler.call(action) {
 			ActionReturn::Sync(action) => action,
 			ActionReturn::Async(action) => Box::into_pin(action).await,
@@ -55,7 +56,8 @@ pub async fn worker(
 
 		// verification seam: adopt new jobs in creation order instead of hash order
 		#[cfg(watchexec_verif)]
-		let action = crate::verif::sort_action(action);
+		#[allow(unused_mut)]
+		let mut action = crate::verif::sort_action(action);
 
 		debug!("take control of new tasks");
 		for (id, (job, task)) in action.new {
